@@ -8,8 +8,9 @@ import Mathlib.Logic.Function.Iterate
 import CspuzModel.Model.Graph
 import CspuzModel.Spec.GraphSpec
 import CspuzModel.Spec.Sat
-namespace Cspuz.Proofs.C04
-open Cspuz Cspuz.Spec
+import CspuzModel.Proofs.EvalLemmas
+namespace Cspuz.Proofs.C04Prim
+open Cspuz Cspuz.Spec Cspuz.Proofs
 
 /-! ### Part 3: the grid graph -/
 
@@ -385,7 +386,7 @@ theorem avcSem_iff_labels (g : Graph) (act : Nat → Bool) :
   simp only [List.mem_filterMap, List.mem_range, getD_map_range]
   constructor
   · intro h v hv av u hu au
-    exact h _ ⟨v, hv, by simp [hv, av]; rfl⟩ _ ⟨u, hu, by simp [hu, au]; rfl⟩
+    exact h _ ⟨v, hv, by simp [hv, av]⟩ _ ⟨u, hu, by simp [hu, au]⟩
   · rintro h x ⟨v, hv, hx⟩ y ⟨u, hu, hy⟩
     simp only [hv, hu, decide_true, Bool.true_and] at hx hy
     split at hx
@@ -397,4 +398,158 @@ theorem avcSem_iff_labels (g : Graph) (act : Nat → Bool) :
       · simp at hy
     · simp at hx
 
-end Cspuz.Proofs.C04
+theorem usable_lt (g : Graph) (act : Nat → Bool) : ∀ e ∈ usable g act, e.1 < g.n ∧ e.2 < g.n := by
+  rintro ⟨a, b⟩ h
+  have := (mem_usable g act a b).1 h
+  exact ⟨this.2.1, this.2.2.1⟩
+
+theorem adj_usable (g : Graph) (act : Nat → Bool) {a b : Nat}
+    (h : (edgeGraph (usable g act)).Adj a b) :
+    a ≠ b ∧ a < g.n ∧ b < g.n ∧ act a = true ∧ act b = true ∧
+      ((a, b) ∈ g.edges ∨ (b, a) ∈ g.edges) := by
+  obtain ⟨hne, h | h⟩ := h
+  · obtain ⟨h1, h2, h3, h4, h5⟩ := (mem_usable g act a b).1 h
+    exact ⟨hne, h2, h3, h4, h5, Or.inl h1⟩
+  · obtain ⟨h1, h2, h3, h4, h5⟩ := (mem_usable g act b a).1 h
+    exact ⟨hne, h3, h2, h5, h4, Or.inr h1⟩
+
+/-- the induced graph on the active vertices. -/
+abbrev activeGraph (g : Graph) (act : Nat → Bool) : SimpleGraph (activeSet g act) :=
+  (toSimple g).induce (activeSet g act)
+
+theorem reach_to_induce (g : Graph) (act : Nat → Bool) {v u : Nat}
+    (h : (edgeGraph (usable g act)).Reachable v u) (hv : v < g.n) (av : act v = true) :
+    ∃ (hu : u < g.n) (au : act u = true),
+      (activeGraph g act).Reachable ⟨⟨v, hv⟩, av⟩ ⟨⟨u, hu⟩, au⟩ := by
+  obtain ⟨p⟩ := h
+  induction p with
+  | nil => exact ⟨hv, av, SimpleGraph.Reachable.refl _⟩
+  | cons hadj q ih =>
+    rename_i a b c
+    obtain ⟨hne, _, hb, _, ab, hmem⟩ := adj_usable g act hadj
+    obtain ⟨hu, au, r⟩ := ih hb ab
+    refine ⟨hu, au, SimpleGraph.Reachable.trans (SimpleGraph.Adj.reachable ?_) r⟩
+    show (toSimple g).Adj ⟨a, hv⟩ ⟨b, hb⟩
+    exact ⟨fun e => hne (Fin.mk.inj_iff.1 e), (exists_joins_iff_mem g a b).2 hmem⟩
+
+/-- forgetting the proofs is a graph homomorphism into the graph of usable edges. -/
+def homToUsable (g : Graph) (act : Nat → Bool) :
+    activeGraph g act →g edgeGraph (usable g act) where
+  toFun x := x.1.1
+  map_rel' := by
+    rintro ⟨⟨a, ha⟩, aa⟩ ⟨⟨b, hb⟩, ab⟩ h
+    have h' : (toSimple g).Adj ⟨a, ha⟩ ⟨b, hb⟩ := h
+    obtain ⟨hne, hj⟩ := h'
+    have hm := (exists_joins_iff_mem g a b).1 hj
+    refine ⟨fun e => hne (Fin.mk.inj_iff.2 e), ?_⟩
+    rcases hm with hm | hm
+    · exact Or.inl ((mem_usable g act a b).2 ⟨hm, ha, hb, aa, ab⟩)
+    · exact Or.inr ((mem_usable g act b a).2 ⟨hm, hb, ha, ab, aa⟩)
+
+/-- The reference semantics of the native operator is connectivity of the active set. -/
+theorem avcSem_iff (g : Graph) (act : Nat → Bool) (_hwf : g.wf = true) :
+    avcSem g.n ((List.range g.n).map act) g.edges = true ↔ ActiveConnected g act := by
+  rw [avcSem_iff_labels]
+  unfold ActiveConnected
+  constructor
+  · rintro h ⟨⟨v, hv⟩, av⟩ ⟨⟨u, hu⟩, au⟩
+    have hr := (components_spec _ g.n (usable_lt g act) hv hu).1 (h v hv av u hu au)
+    obtain ⟨_, _, r⟩ := reach_to_induce g act hr hv av
+    exact r
+  · intro h v hv av u hu au
+    rw [components_spec _ g.n (usable_lt g act) hv hu]
+    exact (h ⟨⟨v, hv⟩, av⟩ ⟨⟨u, hu⟩, au⟩).map (homToUsable g act)
+
+/-! ### Part 2: the primitive encoding is exact -/
+
+/-- the integer operands that `edgeLits` evaluates to. -/
+def intsOf (es : List (Nat × Nat)) : List Int := es.flatMap fun e => [(e.1 : Int), (e.2 : Int)]
+
+theorem allBools_map (l : List Bool) : allBools (l.map fun b => some (.b b)) = some l := by
+  induction l with
+  | nil => rfl
+  | cons b r ih => simp [allBools, ih]
+
+theorem allInts_map (l : List Int) : allInts (l.map fun i => some (.i i)) = some l := by
+  induction l with
+  | nil => rfl
+  | cons b r ih => simp [allInts, ih]
+
+theorem pairUp_intsOf (es : List (Nat × Nat)) : pairUp (intsOf es) = es := by
+  induction es with
+  | nil => rfl
+  | cons e r ih =>
+    have : intsOf (e :: r) = (e.1 : Int) :: (e.2 : Int) :: intsOf r := by simp [intsOf]
+    rw [this, pairUp, ih]
+    simp
+
+theorem length_intsOf (es : List (Nat × Nat)) : (intsOf es).length = 2 * es.length := by
+  induction es with
+  | nil => rfl
+  | cons e r ih =>
+    have : intsOf (e :: r) = (e.1 : Int) :: (e.2 : Int) :: intsOf r := by simp [intsOf]
+    rw [this, List.length_cons, List.length_cons, ih, List.length_cons]; omega
+
+theorem map_eval_edgeLits (σ : Asg) (es : List (Nat × Nat)) :
+    (edgeLits es).map (eval σ) = (intsOf es).map fun i => some (.i i) := by
+  induction es with
+  | nil => rfl
+  | cons e r ih =>
+    have h1 : intsOf (e :: r) = (e.1 : Int) :: (e.2 : Int) :: intsOf r := by simp [intsOf]
+    have h2 : edgeLits (e :: r) = .litI e.1 :: .litI e.2 :: edgeLits r := by simp [edgeLits]
+    rw [h1, h2, List.map_cons, List.map_cons, ih]
+    simp
+
+theorem evalAVC_lits (n : Nat) (act : List Bool) (es : List (Nat × Nat)) (hact : act.length = n) :
+    evalAVC (some (.i n) :: some (.i es.length) ::
+      (act.map (fun b => some (.b b)) ++ (intsOf es).map (fun i => some (.i i)))) =
+      some (.b (avcSem n act es)) := by
+  have hlen : (act.map (fun b => some (Val.b b)) ++ (intsOf es).map (fun i => some (Val.i i))).length
+      = n + 2 * es.length := by
+    simp [length_intsOf, hact]
+  have hl : (act.map (fun b => some (Val.b b))).length = n := by simp [hact]
+  simp only [evalAVC, Int.toNat_natCast]
+  rw [if_neg (by simp [hlen]), List.take_left' hl, List.drop_left' hl, allBools_map, allInts_map]
+  simp only [pairUp_intsOf]
+
+theorem map_eval_boolArgs {base : Nat} {σ σ' : Asg} {ia : List Expr} (hl : BoolArgs base ia)
+    (h : AgreeBelow base σ σ') :
+    ia.map (eval σ') = ((List.range ia.length).map (truthAt σ ia)).map fun b => some (.b b) := by
+  apply List.ext_getElem
+  · simp
+  · intro i h1 h2
+    simp only [List.length_map] at h1
+    simp [eval_boolArg hl h h1]
+
+theorem eval_avcNode {base : Nat} {σ σ' : Asg} (g : Graph) {ia : List Expr} (hlen : ia.length = g.n)
+    (hl : BoolArgs base ia) (h : AgreeBelow base σ σ') :
+    eval σ' (.node .graphAVC ([.litI g.n, .litI g.edges.length] ++ ia ++ edgeLits g.edges)) =
+      some (.b (avcSem g.n ((List.range g.n).map (truthAt σ ia)) g.edges)) := by
+  rw [eval_node]
+  simp only [List.map_append, List.map_cons, eval_litI, evalOp, List.cons_append,
+    List.nil_append]
+  rw [map_eval_boolArgs hl h, map_eval_edgeLits, hlen]
+  exact evalAVC_lits g.n _ g.edges (by simp)
+
+theorem prim_exact : ∀ (g : Graph) (ia : List Expr) (base : Nat) (p : Prog) (σ : Asg),
+    g.wf = true → ia.length = g.n → BoolArgs base ia →
+    activeVerticesConnected g ia base false true = .ok p →
+    (Realizable base p σ ↔ ActiveConnected g (truthAt σ ia)) := by
+  intro g ia base p σ hwf hlen hl hp
+  simp only [activeVerticesConnected, Bool.not_false, Bool.and_self, if_true, hlen, ne_eq,
+    not_true_eq_false, if_false, Except.ok.injEq] at hp
+  subst hp
+  rw [← avcSem_iff g (truthAt σ ia) hwf]
+  constructor
+  · rintro ⟨σ', hag, -, hcs⟩
+    have := hcs _ (List.mem_singleton.2 rfl)
+    rw [eval_avcNode g hlen hl hag] at this
+    simpa using this
+  · intro h
+    refine ⟨σ, AgreeBelow.refl base σ, ?_, ?_⟩
+    · intro k lo hi hk
+      simp at hk
+    · intro c hc
+      rw [List.mem_singleton.1 hc, eval_avcNode g hlen hl (AgreeBelow.refl base σ), h]
+
+end Cspuz.Proofs.C04Prim
